@@ -47,6 +47,7 @@ type c05Plan struct {
 	Seed    uint64     `json:"seed"`
 	Forks   string     `json:"forks"`
 	Blocks  []c05Block `json:"blocks"`
+	WidePV  bool       `json:"wide_pv,omitempty"` // prove values wider than 64 bits whose low words order the other way round (wave 7)
 	Deliver []int      `json:"deliver"`        // block indices; -1 = restart; 1000+i = the branch ending at block i arrives through the sync path
 	Crash   bool       `json:"crash"`          // enumerate crash points inside deliveries
 	Full    bool       `json:"full,omitempty"` // full-node mode (log / header notifications are published by goroutines started during insertion and removal)
@@ -68,7 +69,7 @@ func (c05) Budget(tier string) runner.Budget {
 
 func (c05) Describe() runner.Description {
 	return runner.Description{
-		Rule:        "each plan: a seeded tree of 2..12 valid blocks (<=3 siblings per parent; different/equal TotalQN, higher/lower/equal prove value, with and without transfer transactions, siblings sharing transactions) generated with the node's own cast/verify/assemble API, then delivered to a fresh node in a seeded order with duplicates, orphans-before-parents, re-deliveries and restarts; in about a third of the plans one branch arrives through the sync path instead (a fork store rooted at the common ancestor, every block verified and executed on the fork, then merged: blockChainFork.triggerOnChain), as one delivery; the deliveries between two restarts run as one task of the seeded scheduler, so that a goroutine the node starts while handling a delivery is a task interleaved with the following deliveries. evaluations = invariant evaluations: after every delivery on the live node, and - fault enumeration - on a new incarnation booted from the disk image after EVERY individual store write of every delivery that wrote (exhaustive per plan). A quarter of the plans run the node in full-node mode (notifications published by goroutines started during insertion and removal, as scheduler tasks with at most 0-2 preemptions). For a sixth of the crash images the restart's own repair writes are crash points too (a second process death during recovery). Invariant: head reachable from genesis by parent links; height index = that chain (cache bypassed and cached); nothing indexed above the head; verify-hash exactly up to the head; persisted head record = head; head state opens and fully resolves; no add/remove mark at quiescence; without crash the head only moves to a chain of not-lower weight (TotalQN, then prove value, then hash at the fork point); after a crash inside a head change the head is the old head, the new head or a common ancestor (a delivery that merges several blocks is a sequence of head changes: every head it passed through counts as a new head); transactions of canonical blocks are executed with a receipt naming their canonical block, those of removed blocks are not executed and (live) pending again; after the crash the restarted node accepts a valid extension of its head. distinct_nontrivial = distinct (tree shape, delivery order, crash index) triples whose delivery changed the head.",
+		Rule:        "each plan: a seeded tree of 2..12 valid blocks (<=3 siblings per parent; different/equal TotalQN, higher/lower/equal prove value - in 3 plans of 8 full-width prove values (above 64 bits, as a VRF output is) whose low 64 bits order the other way round -, with and without transfer transactions, siblings sharing transactions) generated with the node's own cast/verify/assemble API, then delivered to a fresh node in a seeded order with duplicates, orphans-before-parents, re-deliveries and restarts; in about a third of the plans one branch arrives through the sync path instead (a fork store rooted at the common ancestor, every block verified and executed on the fork, then merged: blockChainFork.triggerOnChain), as one delivery; the deliveries between two restarts run as one task of the seeded scheduler, so that a goroutine the node starts while handling a delivery is a task interleaved with the following deliveries. evaluations = invariant evaluations: after every delivery on the live node, and - fault enumeration - on a new incarnation booted from the disk image after EVERY individual store write of every delivery that wrote (exhaustive per plan). A quarter of the plans run the node in full-node mode (notifications published by goroutines started during insertion and removal, as scheduler tasks with at most 0-2 preemptions). For a sixth of the crash images the restart's own repair writes are crash points too (a second process death during recovery). Invariant: head reachable from genesis by parent links; height index = that chain (cache bypassed and cached); nothing indexed above the head; verify-hash exactly up to the head; persisted head record = head; head state opens and fully resolves; no add/remove mark at quiescence; without crash the head only moves to a chain of not-lower weight (TotalQN, then prove value, then hash at the fork point); after a crash inside a head change the head is the old head, the new head or a common ancestor (a delivery that merges several blocks is a sequence of head changes: every head it passed through counts as a new head); transactions of canonical blocks are executed with a receipt naming their canonical block, those of removed blocks are not executed and (live) pending again; after the crash the restarted node accepts a valid extension of its head. distinct_nontrivial = distinct (tree shape, delivery order, crash index) triples whose delivery changed the head.",
 		Assumptions: []string{"stub ConsensusHelper accepts group signatures / VRF (judged by C13-C16)", "crash = process death after a completed store write (no torn or lost writes)", "the pending pool is memory-only by design, so 'pending again' is asserted on the live node and for the block the restart rolls back"},
 		Real:        []string{"core/blockchain*.go (add, insert, remove, consistency repair, fork choice, verify, cast)", "service tx pool + executed store", "core/vmexecutor + executors (transfers, rewards, refunds)", "storage/account + trie on real goleveldb over simulated storage", "types wire codecs (block records)"},
 		Stub:        []string{"ConsensusHelper", "network / sync processor (not started; its fork-store merge is driven directly)", "NTP clock"},
@@ -81,6 +82,7 @@ func (c05) Gen(seed uint64, tier string) json.RawMessage {
 	r := simrt.NewRand(seed)
 	p := c05Plan{Seed: seed, Forks: string(node.ForksDevLike), Crash: r.Chance(0.8)}
 	p.Full = seed%4 == 0
+	p.WidePV = (seed*0x9e3779b97f4a7c15)>>61 < 3 // ~3 plans in 8, decided without a draw so the other choices of a seed stay as they were
 	if r.Chance(0.3) {
 		p.Forks = string(node.ForksLatestSync)
 	}
@@ -314,7 +316,7 @@ func c05BuildTree(p *c05Plan, st *simrt.Stats) ([]*c05Node, *simdisk.Disk, *type
 		}
 		d := base.Clone()
 		n := node.Boot(d, forks, false)
-		bs := node.BlockSpec{QN: spec.QN, PV: spec.PV, Castor: spec.Castor, TimeMs: int64(1000 * (i + 1)), Skip: spec.Skip}
+		bs := node.BlockSpec{QN: spec.QN, PV: spec.PV, PVWide: p.WidePV, Castor: spec.Castor, TimeMs: int64(1000 * (i + 1)), Skip: spec.Skip}
 		if spec.ReTx > 0 && tree[spec.ReTx-1] != nil {
 			for _, tx := range tree[spec.ReTx-1].block.Transactions {
 				c := *tx
